@@ -130,6 +130,73 @@ func runC12(c *Ctx) {
 				}
 			}
 		}
+		// offsets are unsigned 64-bit numbers: the largest ones congruent to k must place the battle like k does
+		for _, k := range shifts[:min(len(shifts), 2)] {
+			if k == 0 {
+				continue
+			}
+			um := uint64(m)
+			bases := []uint64{(^uint64(0) / um) * um, (uint64(1)<<63/um + 1) * um, (uint64(1) << 63 / um) * um} // multiples of M near 2^64 and 2^63
+			big := bases[r.Intn(len(bases))]
+			if big > ^uint64(0)-uint64(2*m) {
+				big -= um * uint64(r.Range(0, 2)) // with 0: offset+index overflows 2^64 for the last cells
+			}
+			var s g.ReportingSimulator
+			var ws []g.Warrior
+			var surv []bool
+			var serr error
+			if p, msg := try(func() {
+				s, serr = g.NewReportingSimulator(bc.config())
+				if serr != nil {
+					return
+				}
+				for _, w := range bc.Warriors {
+					gw, _ := s.AddWarrior(&g.WarriorData{Name: "w", Code: toGCode(w.Code), Start: w.Start})
+					ws = append(ws, gw)
+				}
+				for i, w := range bc.Warriors {
+					// (w.Off + k) mod M, expressed as a huge congruent offset
+					off := big + uint64((w.Off+k)%m)
+					if off < big { // wrapped past 2^64: stay below
+						off = big - um + uint64((w.Off+k)%m)
+					}
+					if e := s.SpawnWarrior(i, g.Address(off)); e != nil {
+						serr = e
+						return
+					}
+				}
+				surv = s.Run()
+			}); p || serr != nil {
+				c.Violate("C12:panic-huge-offset:"+panicSite(msg), fmt.Sprintf("offset congruent to %d near 2^63/2^64: %v %s", k, serr, msg), bc.describe())
+				return
+			}
+			c.Inc("huge_offsets_compared")
+			d := ""
+			if fmt.Sprint(surv) != fmt.Sprint(baseSurv) || s.CycleCount() != base.CycleCount() {
+				d = fmt.Sprintf("survivors/cycles: huge offset %v/%d, base %v/%d", surv, s.CycleCount(), baseSurv, base.CycleCount())
+			}
+			for a := 0; d == "" && a < m; a++ {
+				if s.GetMem(g.Address((a+k)%m)) != base.GetMem(g.Address(a)) {
+					d = fmt.Sprintf("core: cell %d is %v, base cell %d is %v", (a+k)%m, s.GetMem(g.Address((a+k)%m)), a, base.GetMem(g.Address(a)))
+				}
+			}
+			for i := 0; d == "" && i < len(ws); i++ {
+				qa, qb := ws[i].Queue(), bws[i].Queue()
+				if len(qa) != len(qb) {
+					d = fmt.Sprintf("queue of warrior %d: %v vs base %v", i, qa, qb)
+				}
+				for j := 0; d == "" && j < len(qa); j++ {
+					if int(qa[j]) != (int(qb[j])+k)%m {
+						d = fmt.Sprintf("queue of warrior %d: %v vs base %v (rotation %d)", i, qa, qb, k)
+					}
+				}
+			}
+			if d != "" {
+				c.Violate("C12:relation-huge-offset", fmt.Sprintf("offsets congruent to shift %d but near 2^63 / 2^64 (multiple of M %d added): %s", k, big, d), bc.describe())
+				return
+			}
+			c.Nontrivial(fmt.Sprintf("%dw|huge-offset|M%d", len(bc.Warriors), m/4))
+		}
 		if idx%997 == 0 {
 			c.Sample(bc.describe())
 		}
